@@ -84,13 +84,12 @@ struct RawReport {
 RawReport g_raw[MAX_REPORTS];
 std::atomic<int> g_nraw{ 0 };
 std::atomic<int> g_raw_dropped{ 0 };
-// A worker thread that raised a report parks inside the hook (i.e. BEFORE it returns into the racing library code) until
-// the main thread has looked at the report: an unknown signature ends the process at once with the failing tape, so the
-// race never gets the chance to corrupt memory and wedge the process; a known finding lets the worker continue.
-std::atomic<int> g_pending{ 0 };      // 1 + index of the report waiting for the main thread's verdict
-std::atomic<int> g_release{ 0 };
-std::atomic<int> g_run_active{ 0 };   // workers are running and the main thread is in its watchdog loop
-pthread_t g_main_thread;
+// The hook only records (it runs with ThreadSanitizer-internal locks held, so it must neither block nor call back into
+// instrumented code).  The main thread polls g_nraw every millisecond: an unknown signature ends the process at once with the
+// failing tape, before the race has much chance to corrupt memory and wedge the process; workers park at their next API
+// boundary until the main thread has decided (g_handled catches up), a known finding lets them continue.
+std::atomic<int> g_handled{ 0 };
+std::atomic<uint64_t> g_unhandled_since_ms{ 0 };
 }
 
 // Called by the TSan runtime (report mutex held, so calls are serialized) after it printed a report.
@@ -109,12 +108,9 @@ extern "C" __attribute__((no_sanitize("thread"))) void __tsan_on_report(void *re
         __tsan_get_report_mop(rep, (unsigned long) k, &r.mop_tid[k], &r.mop_addr[k], &r.mop_size[k], &r.mop_write[k], &atomic, r.mop_pc[k], MAX_PCS);
     }
     for (int k = 0; k < r.nstack; k++) __tsan_get_report_stack(rep, (unsigned long) k, r.stack_pc[k], MAX_PCS);
-    g_nraw.store(i + 1, std::memory_order_relaxed);
-    if (g_run_active.load(std::memory_order_acquire) && !pthread_equal(pthread_self(), g_main_thread)) {
-        g_release.store(0, std::memory_order_relaxed);
-        g_pending.store(i + 1, std::memory_order_release);
-        while (!g_release.load(std::memory_order_acquire)) { struct timespec ts = { 0, 200000 }; syscall(SYS_nanosleep, &ts, (void *) 0); }
-    }
+    struct timespec ts; clock_gettime(CLOCK_MONOTONIC, &ts);
+    g_unhandled_since_ms.store((uint64_t) ts.tv_sec * 1000 + (uint64_t) ts.tv_nsec / 1000000, std::memory_order_relaxed);
+    g_nraw.store(i + 1, std::memory_order_release);
 }
 
 namespace {
@@ -263,6 +259,11 @@ struct Ev {
 };
 const char *ev_name[] = { "hs", "data", "close", "load", "delete", "crl", "poison" };
 
+// Workers stop at API boundaries while a ThreadSanitizer report waits for the main thread's verdict (bounded wait).
+inline void park_while_report_pending() {
+    for (int i = 0; i < 100000 && g_nraw.load(std::memory_order_relaxed) != g_handled.load(std::memory_order_relaxed); i++) { struct timespec ts = { 0, 300000 }; nanosleep(&ts, NULL); }
+}
+
 // ------------------------------------------------------------------------------------------------ endpoint driver
 // Follows the documented caller contract (GetReadbuf / ReceivedData / ProcessedData / GetOutdata / SentData); one
 // schedule perturbation point before every API call.  Used by exactly one thread.
@@ -271,7 +272,7 @@ struct Ep {
     bool failed = false; int last_rc = 0; int alert_level = -1, alert_desc = -1; std::atomic<uint64_t> *progress = nullptr;
     Ep() {}
     Ep(const Ep &) = delete; Ep &operator=(const Ep &) = delete;
-    void y() { if (progress) progress->fetch_add(1, std::memory_order_relaxed); c20_maybe_yield(); }
+    void y() { if (progress) progress->fetch_add(1, std::memory_order_relaxed); park_while_report_pending(); c20_maybe_yield(); }
     bool hs_complete() { return ssl && matrixSslHandshakeIsComplete(ssl) == PS_TRUE; }
     void close() { if (ssl) { y(); matrixSslDeleteSession(ssl); ssl = nullptr; } }
     void pump() {
@@ -709,7 +710,7 @@ std::string one_line(std::string s) { for (auto &ch : s) if (ch == '\n') ch = ' 
     if (!replay && !d.out_path.empty() && d.cur) { d.fail_replay = d.out_path + ".fail.tape"; vf::write_file(d.fail_replay, d.cur, d.cur_len); }
     vf::write_stats("fail");
     fflush(NULL);
-    syscall(SYS_exit_group, 1);   // not _exit(): the TSan interceptor of _exit needs the thread registry lock that the parked reporter holds
+    syscall(SYS_exit_group, 1);   // not _exit(): the TSan interceptor of _exit finalizes the runtime and can block on its internal locks
     abort();
 }
 
@@ -722,9 +723,11 @@ void *last_resort_main(void *) {
     for (;;) {
         struct timespec ts = { 1, 0 }; syscall(SYS_nanosleep, &ts, (void *) 0);
         uint64_t st = g_case_start_ms.load(std::memory_order_relaxed);
-        if (st && now_ms() - st > (uint64_t) (CASE_TIMEOUT_S + 25) * 1000) {
+        uint64_t un = g_nraw.load(std::memory_order_relaxed) != g_handled.load(std::memory_order_relaxed) ? g_unhandled_since_ms.load(std::memory_order_relaxed) : 0;
+        bool stuck_report = un && now_ms() - un > 30000;   // a report was recorded but the main thread never got to act on it
+        if ((st && now_ms() - st > (uint64_t) (CASE_TIMEOUT_S + 25) * 1000) || stuck_report) {
             vf::Driver &d = vf::drv();
-            if (!d.out_path.empty() && d.cur) vf::write_file(d.out_path + ".hang.tape", d.cur, d.cur_len);
+            if (!d.out_path.empty() && d.cur) vf::write_file(d.out_path + (stuck_report ? ".fail.tape" : ".hang.tape"), d.cur, d.cur_len);
             static const char msg[] = "[c20] process wedged past the case time limit: killed by the last-resort watchdog\n";
             if (write(2, msg, sizeof msg - 1)) {}
             kill(getpid(), SIGKILL);
@@ -748,7 +751,6 @@ void run_once(const Program &p, int run_idx, uint64_t yield_seed, const std::str
         ws.push_back(w);
     }
     // worker threads must not receive the engine's SIGALRM (it has to interrupt the main thread)
-    g_run_active.store(1, std::memory_order_release);
     sigset_t block, old; sigemptyset(&block); sigaddset(&block, SIGALRM); pthread_sigmask(SIG_BLOCK, &block, &old);
     for (auto *w : ws) if (pthread_create(&w->th, NULL, worker_main, w) != 0) { fprintf(stderr, "[c20] pthread_create failed\n"); abort(); }
     pthread_sigmask(SIG_SETMASK, &old, NULL);
@@ -757,10 +759,10 @@ void run_once(const Program &p, int run_idx, uint64_t yield_seed, const std::str
     for (;;) {
         bool all_done = true; for (auto *w : ws) if (!w->done.load(std::memory_order_acquire)) all_done = false;
         if (all_done) break;
-        if (int pi = g_pending.load(std::memory_order_acquire)) {
-            Report r = render(g_raw[pi - 1]);
+        for (int n = g_nraw.load(std::memory_order_acquire), h = g_handled.load(std::memory_order_relaxed); h < n; h++) {
+            Report r = render(g_raw[h]);
             if (!ctx.is_known(r.sig)) fatal_report(r, desc, verbose);
-            g_pending.store(0, std::memory_order_relaxed); g_release.store(1, std::memory_order_release);   // known finding: carry on, counted after the run
+            g_handled.store(h + 1, std::memory_order_relaxed);   // known finding: the workers carry on, it is counted after the run
         }
         struct timespec ts = { 0, 1000000 }; nanosleep(&ts, NULL);
         double now = vf::now_s();
@@ -780,7 +782,7 @@ void run_once(const Program &p, int run_idx, uint64_t yield_seed, const std::str
         }
     }
     for (auto *w : ws) pthread_join(w->th, NULL);
-    g_run_active.store(0, std::memory_order_release);
+    g_handled.store(g_nraw.load(std::memory_order_acquire), std::memory_order_relaxed);
     pthread_barrier_destroy(&start);
     struct Cleanup { std::vector<Worker *> &ws; ~Cleanup() { for (auto *w : ws) delete w; } } cleanup{ ws };
     // ---- leave the shared world in a normal state for the next run: empty slots, one ticket key
@@ -843,7 +845,6 @@ VF_TARGET("c20_concurrent", prop, 1024, CASE_TIMEOUT_S)
 
 namespace vf {
 void vf_global_init(int, char **) {
-    g_main_thread = pthread_self();
     atexit(exit_with_engine_status);
     { sigset_t block, old; sigemptyset(&block); sigaddset(&block, SIGALRM); pthread_sigmask(SIG_BLOCK, &block, &old);
       pthread_t th; if (pthread_create(&th, NULL, last_resort_main, NULL) == 0) pthread_detach(th);
